@@ -69,7 +69,7 @@ fn inst<G: GraphLike>(g: &G, sigma: u32) -> Result<Diag, String> {
     Ok(d)
 }
 
-fn inst_truth<G: GraphLike>(g: &G, sigma: u32) -> Result<Option<Truth>, String> {
+pub(crate) fn inst_truth<G: GraphLike>(g: &G, sigma: u32) -> Result<Option<Truth>, String> {
     let d = inst(g, sigma)?;
     d.check_wellformed()?;
     match truth_of(&d) {
